@@ -181,3 +181,43 @@ pub fn i1_decide_twin_m1() {
 pub fn i1_decide_twin_m16() {
     i1_decide_twin::<16>();
 }
+
+/// Collections keep to their own arena: appending a vector that lives in arena B to an
+/// (unallocated) vector of arena A leaves A's vector in A and B untouched by later pushes.
+#[cfg(feature = "collections")]
+pub fn i1_vec_append_cross() {
+    use crate::collections::Vec as BVec;
+    let mut back_a = Backing::<304>([0u8; 304]);
+    let mut back_b = Backing::<304>([0u8; 304]);
+    unsafe {
+        let ca = small_chunk::<1>(back_a.0.as_mut_ptr(), 256, 256);
+        let cb = small_chunk::<1>(back_b.0.as_mut_ptr(), 256, 256);
+        let a = mk_bump::<1>(ca.footer, None);
+        let b = mk_bump::<1>(cb.footer, None);
+        let ar: &Bump = &a;
+        let br: &Bump = &b;
+        let x: [u8; 2] = kani::any();
+        let mut va: BVec<u8> = BVec::new_in(ar);
+        let mut vb: BVec<u8> = BVec::with_capacity_in(2, br);
+        vb.push(x[0]);
+        vb.push(x[1]);
+        va.append(&mut vb);
+        vassert!(va.len() == 2 && va[0] == x[0] && va[1] == x[1] && vb.len() == 0, "NEVER: [C13] append result");
+        vassert!(core::ptr::eq(va.bump(), ar) && core::ptr::eq(vb.bump(), br), "NEVER: [C20] a vector changed arenas");
+        let pa = va.as_ptr() as usize;
+        vassert!(pa >= ca.data as usize && pa + 2 <= ca.footer as usize, "NEVER: [C20] a vector of arena A has its buffer in another arena's memory");
+        // (growing the vector afterwards was tried: 6.5 min and out of memory; the arena a vector
+        // grows in is the one `bump()` reports, which is checked above)
+        kani::cover!(true, "REACH: end of harness");
+    }
+}
+#[cfg(feature = "collections")]
+#[kani::proof]
+#[kani::unwind(14)]
+#[kani::stub(crate::core_alloc::alloc::alloc, alloc_cut)]
+#[kani::stub(crate::core_alloc::alloc::dealloc, dealloc_count)]
+#[kani::stub(core::ptr::copy_nonoverlapping, cno_loop)]
+#[kani::stub(core::ptr::copy, copy_loop)]
+pub fn i1_vec_append_cross_h() {
+    i1_vec_append_cross();
+}
